@@ -28,49 +28,60 @@ let rec take n f toks = if n = 0 then ([], toks) else let (x, r) = f toks in let
 let name = function t :: r -> (zi t, r) | [] -> failwith "eof"
 
 let rec parse toks = match toks with
-  | "L" :: c :: r -> (Lit (const_of c), r)
-  | "B" :: c :: r -> (Obj (const_of c), r)
-  | "R" :: x :: l :: r -> (Ref (zi x, zi l), r)
-  | "S" :: x :: l :: r -> let (e, r') = parse r in (SetE (zi x, zi l, e), r')
-  | "C" :: r -> let (t, r1) = parse r in let (a, r2) = parse r1 in let (b, r3) = parse r2 in (Cnd (t, a, b), r3)
-  | "Q" :: n :: r -> let (es, r') = take (int_of_string n) parse r in (Seq es, r')
-  | "A" :: n :: r -> let (f, r1) = parse r in let (args, r2) = take (int_of_string n) parse r1 in (App (f, args), r2)
-  | "O" :: o :: r -> (Op (zi o), r)
+  | "I" :: c :: r -> (KImm (const_of c), r)
+  | "L" :: c :: r -> (KLit (const_of c), r)
+  | "B" :: c :: r -> (KObj (const_of c), r)
+  | "R" :: x :: l :: r -> (KRef (zi x, zi l), r)
+  | "S" :: x :: l :: r -> let (e, r') = parse r in (KSet (zi x, zi l, e), r')
+  | "C" :: r -> let (t, r1) = parse r in let (a, r2) = parse r1 in let (b, r3) = parse r2 in (KCnd (t, a, b), r3)
+  | "Q" :: n :: r -> let (es, r') = take (int_of_string n) parse r in (KSeq es, r')
+  | "A" :: n :: r -> let (f, r1) = parse r in let (args, r2) = take (int_of_string n) parse r1 in (KApp (f, args), r2)
+  | "O" :: o :: r -> (KOp (zi o), r)
   | "M" :: id :: n :: r ->
       let (ps, r1) = take (int_of_string n) name r in
       (match r1 with
        | rest :: m :: r2 ->
            let (sv, r3) = take (int_of_string m) name r2 in
            let (body, r4) = parse r3 in
-           (Lam (zi id, ps, rest = "1", sv, body), r4)
+           (KLam (zi id, ps, rest = "1", sv, body), r4)
        | _ -> failwith "bad lambda")
   | t :: _ -> failwith ("bad token " ^ t)
   | [] -> failwith "eof"
 
+(* kinds kept: I = immediate, L = lit node, B = heap datum that is not a lit *)
 let rec show e = match e with
-  | Lit c -> "L " ^ string_of_const c
-  | Obj c -> "B " ^ string_of_const c
-  | Ref (x, l) -> "R " ^ iz x ^ " " ^ iz l
-  | SetE (x, l, e) -> "S " ^ iz x ^ " " ^ iz l ^ " " ^ show e
-  | Cnd (t, a, b) -> "C " ^ show t ^ " " ^ show a ^ " " ^ show b
-  | Seq es -> String.concat " " (("Q " ^ string_of_int (List.length es)) :: List.map show es)
-  | App (f, args) -> String.concat " " (("A " ^ string_of_int (List.length args)) :: show f :: List.map show args)
-  | Op o -> "O " ^ iz o
-  | Lam (id, ps, rest, sv, body) ->
+  | KImm c -> "I " ^ string_of_const c
+  | KLit c -> "L " ^ string_of_const c
+  | KObj c -> "B " ^ string_of_const c
+  | KRef (x, l) -> "R " ^ iz x ^ " " ^ iz l
+  | KSet (x, l, e) -> "S " ^ iz x ^ " " ^ iz l ^ " " ^ show e
+  | KCnd (t, a, b) -> "C " ^ show t ^ " " ^ show a ^ " " ^ show b
+  | KSeq es -> String.concat " " (("Q " ^ string_of_int (List.length es)) :: List.map show es)
+  | KApp (f, args) -> String.concat " " (("A " ^ string_of_int (List.length args)) :: show f :: List.map show args)
+  | KOp o -> "O " ^ iz o
+  | KLam (id, ps, rest, sv, body) ->
       String.concat " " (["M"; iz id; string_of_int (List.length ps)] @ List.map iz ps @ [(if rest then "1" else "0"); string_of_int (List.length sv)]
                          @ List.map iz sv @ [show body])
+
+(* the dynamic state of the compiling program: "-" = nothing installed, "<h>:<p>" = handler h and a parameter bound to p *)
+let dyn_of s = if s = "-" then dyn0 else
+  match String.split_on_char ':' s with
+  | [h; p] -> { handler = Some (zi h); params = [(zi "1", CInt (zi p))] }
+  | _ -> failwith ("bad dyn " ^ s)
 
 let whole toks = match parse toks with (e, []) -> e | _ -> failwith "trailing tokens"
 
 let handle = function
-  | "simplify" :: toks -> show (sexp_simplify (whole toks))
+  | "simplify" :: d :: toks -> show (ksexp_simplify (dyn_of d) (whole toks))     (* the kind-exact model, under dynamic state d *)
   | "run" :: toks ->
-      let (v, o) = run (whole toks) in
+      let (v, o) = run (erase (whole toks)) in
       (match v with None -> "NONE" | Some c -> "V " ^ string_of_const c) ^ " |" ^ String.concat "" (List.map (fun c -> " " ^ string_of_const c) o)
-  | "wf" :: toks -> string_of_bool (wf (whole toks))
-  | "simplify_body" :: toks -> show (simplify (whole toks) [] true)
+  | "wf" :: toks -> string_of_bool (wf (erase (whole toks)))
+  | "simplify_body" :: toks -> show (ksimplify dyn0 (whole toks) [] true)
+  | "erased_agree" :: d :: toks ->          (* instance of ksimplify_refines_simplify *)
+      let e = whole toks in string_of_bool (erase (ksexp_simplify (dyn_of d) e) = sexp_simplify (erase e))
   | "run2" :: fuel :: toks ->
-      (match run2 (nat_of_int (int_of_string fuel)) (whole toks) with
+      (match run2 (nat_of_int (int_of_string fuel)) (erase (whole toks)) with
        | None -> "NONE |"
        | Some (v, o) ->
            (match v with None -> "V proc" | Some c -> "V " ^ string_of_const c) ^ " |" ^ String.concat "" (List.map (fun c -> " " ^ string_of_const c) o))
